@@ -92,19 +92,10 @@ MAX_SIZE = 40000
 
 # Families that are switched off because the UNCHANGED library fails them (possible genuine defects, reported to the
 # coordinator; see notes/C02.md "Input-space audit").  key -> exact signature (inputs, message).
-PENDING_FINDINGS = {
-    "contract_all_children_fresh_id": {
-        "inputs": "ttn.contract_all_children(node_id, new_identifier=X) with X != node_id on a node with >= 2 children",
-        "message": "KeyError: '<node_id>' (the second contract_nodes call still names the node that the first call "
-                   "replaced by X); with exactly one child, or X omitted / X == node_id, the call works",
-    },
-    "add_parent_to_root_unlinked_node": {
-        "inputs": "ttn.add_parent_to_root(root_leg, Node(identifier=X), tensor, parent_leg) with a Node that was not "
-                  "constructed with its tensor (the form add_root and add_child_to_parent accept: they call link_tensor)",
-        "message": "TypeError: object of type 'NoneType' has no len() (add_parent_to_root never links the tensor); "
-                   "the family builds the new root as Node(tensor=..., identifier=...) instead",
-    },
-}
+# Both defects the audit found here were repaired in /repo (known_findings.json: F-C02b contract_all_children with a
+# fresh identifier on a node with >= 2 children, F-C02c add_parent_to_root with a node not yet linked to its
+# tensor); the families are generated without restriction.
+PENDING_FINDINGS = {}
 
 NAME_POOL = ["n1", "n10", "n100", "n", "1", "10", "N1", "n 1", "n1_", "_n1", "n01", "out_of_n1", "in_of_n1", "ncontr"]
 
@@ -351,9 +342,8 @@ class World:
                 t.flags.writeable = False           # the owner of the data: every view of it is read-only as well
                 raw_t = np.transpose(t, [legs.index(l) for l in raw_order]) if legs else t
             axes = ",".join(f"{lab_of(l)}.{dim_of(l)}" for l in raw_order) if raw_order else "-"
-            if aud.get("linked") or (apr and x == 0):
-                # a Node already linked to its tensor (as tests/ and the state generators of the library build them);
-                # add_parent_to_root NEEDS that, see PENDING_FINDINGS["add_parent_to_root_unlinked_node"]
+            if aud.get("linked"):
+                # a Node already linked to its tensor (as tests/ and the state generators of the library build them)
                 node = ptn.Node(tensor=raw_t, identifier=names[x])
             else:
                 node = ptn.Node(identifier=names[x])
